@@ -364,7 +364,7 @@ def multiLine (toks : List String) : String :=
         -- file behind the server's back; such scenarios are scheduled strictly in list order), `fs` is the final tree (with the uploads)
         let one (acc : Option (Fs × Fs × List String)) (spec : String) : Option (Fs × Fs × List String) := do
           let (rd, fs, outs) ← acc
-          match (match spec.splitOn ":" with | "D" :: rest => "d" :: rest | "J" :: rest => "d" :: rest | "U" :: rest => "u" :: rest | other => other) with
+          match (match spec.splitOn ":" with | "D" :: rest => "d" :: rest | "J" :: rest => "d" :: rest | "U" :: rest => "u" :: rest | "V" :: rest => "u" :: rest | other => other) with
           | ["d", name, b, w] =>
             let os : List TransferOption := [{ option := .blksize, value := (← b.toNat?) }, { option := .windowsize, value := (← w.toNat?) }]
             let r := handleRrq cfg rd (bytesOfString name) os
